@@ -39,4 +39,6 @@ type JobResult struct {
 	EngineErr  string          `json:"engine_err,omitempty"`
 	Sample     []int           `json:"sample_schedule,omitempty"`
 	Extra      json.RawMessage `json:"extra,omitempty"`
+	// WorkerGone: the worker process that produced this result has exited (a spinning goroutine cannot be stopped)
+	WorkerGone bool `json:"worker_gone,omitempty"`
 }
